@@ -11,15 +11,19 @@ static void check_variant(const char *unused, u64 *o, out_t e, int required) {
     CHECK(o[1] == sp_start, "local failure under rewind_mode::required restores the cursor (byte)");
   }
   if (e.r == 0 || e.r == 1) {
+#ifndef SP_LAZY   /* lazy inputs keep no line/column counters (their position() is C06's subject) */
     if (e.r == 1 || required) {
       u64 l, c; sp_recount(o[1], &l, &c);
       CHECK(o[4] == l && o[5] == c, "line/column after the call equal a recount of the consumed prefix");
     }
+#endif
   }
   if (e.r == 2) {
     CHECK((s64)o[2] == (s64)e.id, "global failure names the first must-rule that failed in evaluation order");
     CHECK(o[3] >= e.lo && o[3] <= e.far, "exception position lies between the start of the blamed attempt and the furthest point reached");
+#ifndef SP_LAZY
     if (e.id < 1000) { u64 l, c; sp_recount(o[3], &l, &c); CHECK(o[6] == l && o[7] == c, "exception byte/line/column are mutually consistent"); }
+#endif
   }
   if (e.r == 3) {
     CHECK((s64)o[2] == (s64)e.id, "foreign exception propagates unchanged");
